@@ -3186,7 +3186,7 @@ class RegexMatch(Match):
             return val
         elif tree_data == "regex_exact_repeat":
             repeated_match = self._interpret_parse_tree(regex_tree.children[0])
-            repeat_times   = int(regex_tree.children[1].value)
+            repeat_times   = self._repeat_count(regex_tree.children[1])
             return ProgramData.imbue(
                 RegexSequence(itertools.repeat(repeated_match, repeat_times)),
                 DTAG.SOURCE_LINE, regex_tree.children[1].line,
@@ -3194,7 +3194,7 @@ class RegexMatch(Match):
             )
         elif tree_data == "regex_at_least_repeat":
             repeated_match = self._interpret_parse_tree(regex_tree.children[0])
-            repeat_times   = int(regex_tree.children[1].value)
+            repeat_times   = self._repeat_count(regex_tree.children[1])
             return ProgramData.imbue(
                 RegexSequence([repeated_match for x in range(repeat_times)] + [RegexKleene(repeated_match)]),
                 DTAG.SOURCE_LINE, regex_tree.children[1].line,
@@ -3202,8 +3202,8 @@ class RegexMatch(Match):
             )
         elif tree_data == "regex_range_repeat":
             repeated_match = self._interpret_parse_tree(regex_tree.children[0])
-            repeat_times_min = int(regex_tree.children[1].value)
-            repeat_times_max = int(regex_tree.children[2].value)
+            repeat_times_min = self._repeat_count(regex_tree.children[1])
+            repeat_times_max = self._repeat_count(regex_tree.children[2])
             return ProgramData.imbue(RegexSequence(itertools.chain(
                 itertools.repeat(repeated_match, repeat_times_min),
                 itertools.repeat(RegexOptional(repeated_match), repeat_times_max - repeat_times_min)
@@ -3213,6 +3213,21 @@ class RegexMatch(Match):
             )
         else:
             raise NotImplementedError("don't handle {} yet".format(tree_data))
+
+    MAX_REPEAT_COUNT = 65536
+
+    def _repeat_count(self, token: lark.Token):
+        """
+        The count of a {n} / {n,} / {n,m} repeat: every repetition becomes a copy of the repeated expression, so it has to stay reasonable
+        """
+
+        try:
+            count = int(token.value)
+        except ValueError:
+            count = None
+        if count is None or count > self.MAX_REPEAT_COUNT:
+            raise IllegalParseTree(f"Repeat count is too large (at most {self.MAX_REPEAT_COUNT})", token)
+        return count
 
     def _convert_raw_regex_unimportant(self, regex_tree: lark.Token):
         if regex_tree.value[0] == '\\':
